@@ -340,7 +340,7 @@ Config(name) ==
               \cup {[op |-> "AddInvoice", h |-> "h1", a |-> 1], [op |-> "Heartbeat"], [op |-> "Restart"]}]
     [] name = "loop" ->       \* one channel carries both directions; second hash; keysend
          [chans |-> {"c1", "c2"}, hashes |-> {"h1", "h2"},
-          reqs |-> ChanReqs("c1", {<<>>, <<O("h1", 1), R("h1", 1)>>, <<O("h2", 1)>>}, FALSE)
+          reqs |-> ChanReqs("c1", {<<>>, <<O("h1", 1), R("h1", 1)>>, <<R("h1", 1)>>}, FALSE)
               \cup ChanReqs("c2", {<<>>, <<O("h1", 2)>>, <<O("h1", 1), O("h2", 1)>>}, FALSE)
               \cup {[op |-> "AddInvoice", h |-> "h1", a |-> 1], [op |-> "AddKeysend", h |-> "h2", a |-> 1],
                     [op |-> "Restart"]}]
@@ -348,7 +348,7 @@ Config(name) ==
          [chans |-> {"c1", "c2", "c3"}, hashes |-> {"h1"},
           reqs |-> ChanReqs("c1", {<<>>, <<O("h1", 1)>>}, FALSE)
               \cup ChanReqs("c2", {<<>>, <<O("h1", 1)>>}, FALSE)
-              \cup ChanReqs("c3", {<<>>, <<O("h1", 1)>>}, FALSE)
+              \cup ChanReqs("c3", {<<>>, <<R("h1", 1)>>}, FALSE)
               \cup {[op |-> "AddInvoice", h |-> "h1", a |-> 2], [op |-> "Restart"]}]
     [] OTHER -> [chans |-> {}, hashes |-> {}, reqs |-> {}]
 
